@@ -1,5 +1,6 @@
 import MV.Lemmas.PrioritySlice
 import MV.Model.SyncMap
+import MV.Lemmas.PagedSlice
 /-!
 # C16 — priority slice (`PrioritySlice`, `SyncPrioritySlice`) and `SyncSlice`
 -/
@@ -71,6 +72,11 @@ theorem C16_priority_model_judged (srt : List Item → List Item) (hs : SortSpec
   | none => rw [he] at this; exact this.2.1
   | some want => rw [he] at this; exact ⟨this.1, this.2⟩
 
+/-- non-vacuity (ties, re-prioritising, a bad index) -/
+example : (PrioritySlice.exec isortP []
+    [.append 101 1, .append 102 0, .append 103 1, .setPriority 0 2, .set 5 9 9, .appends 0 [7, 8]]) =
+    [(0, 7), (0, 8), (1, 101), (1, 103), (2, 102)] := by decide
+
 end priority
 
 /-! ## `SyncSlice`: the model *is* the plain slice; out-of-range calls panic and change nothing -/
@@ -78,5 +84,190 @@ end priority
 theorem C16_syncslice_oob_total (l : List Int) (i v : Int) (h : i < 0 ∨ i ≥ l.length) :
     SyncSlice.step l (.set i v) = (l, .panic) ∧ SyncSlice.step l (.get i) = (l, .panic) := by
   simp [SyncSlice.step, h]
+
+/-! ## `PagedSlice` -/
+section paged
+open MV.Model.Paged
+
+/-- "the specification leaves it open" (`Get` outside `0..Len()-1`) or the answers are equal -/
+def pagedAgree (impl spec : Out) : Prop := spec = .undet ∨ impl = spec
+
+/-- **one step**: a well-formed paged slice (page size ≥ 1) stays well-formed, its contents change exactly
+like the plain slice, and it answers like the plain slice — page-boundary arithmetic, page allocation
+and release, `lenLast` bookkeeping included. -/
+theorem C16_paged_step (s : Paged) (h : WF s) (op : Paged.Op) :
+    WF (Paged.step s op).1 ∧ (Paged.step s op).1.abs = (Slice.step s.abs op).1 ∧
+      pagedAgree (Paged.step s op).2 (Slice.step s.abs op).2 := by
+  cases op with
+  | add v =>
+    obtain ⟨s', h1, h2, h3⟩ := add_spec s h v
+    simp only [Paged.step, h1, Slice.step]
+    exact ⟨h2, h3, Or.inr rfl⟩
+  | del i =>
+    by_cases hout : i < 0 ∨ i ≥ (s.len : Int)
+    · simp only [Paged.step, del_out s i hout, Slice.step]
+      refine ⟨h, ?_, Or.inr rfl⟩
+      unfold Slice.del; rw [length_abs, if_pos hout]
+    · obtain ⟨n, rfl⟩ : ∃ n : Nat, i = (n : Int) := ⟨i.toNat, by omega⟩
+      obtain ⟨s', h1, h2, h3⟩ := del_spec s h n (by omega)
+      simp only [Paged.step, h1, Slice.step]
+      exact ⟨h2, h3, Or.inr rfl⟩
+  | get i =>
+    simp only [Paged.step, Slice.step, length_abs]
+    by_cases hout : i < 0 ∨ i ≥ (s.len : Int)
+    · rw [if_pos hout]
+      cases s.get i <;> exact ⟨h, rfl, Or.inl rfl⟩
+    · rw [if_neg hout]
+      obtain ⟨n, rfl⟩ : ∃ n : Nat, i = (n : Int) := ⟨i.toNat, by omega⟩
+      rw [get_in s h n (by omega)]
+      exact ⟨h, rfl, Or.inr (by simp)⟩
+  | set i v =>
+    simp only [Paged.step, Slice.step]
+    by_cases hout : i < 0 ∨ i ≥ (s.len : Int)
+    · have h1 : s.set i v = some s := by unfold Paged.set; rw [if_pos hout]
+      have h2 : Slice.write s.abs i v = none := by unfold Slice.write; rw [length_abs, if_pos hout]
+      rw [h1, h2]
+      (refine ⟨h, ?_, ?_⟩ <;> first | rfl | trivial | exact Or.inr rfl)
+    · obtain ⟨n, rfl⟩ : ∃ n : Nat, i = (n : Int) := ⟨i.toNat, by omega⟩
+      have hn : n < s.len := by omega
+      have h2 : Slice.write s.abs (n : Int) v = some (s.abs.set n v) := by
+        unfold Slice.write; rw [length_abs, if_neg hout]; simp
+      rw [set_in s h n hn v, h2]
+      exact ⟨wf_upd s h n hn v, abs_upd s n hn v, Or.inr rfl⟩
+  | len =>
+    simp only [Paged.step, Slice.step, length_abs]
+    (refine ⟨h, ?_, ?_⟩ <;> first | rfl | trivial | exact Or.inr rfl)
+  | grow is =>
+    simp only [Paged.step, Slice.step, Paged.grow]
+    cases hE : is.isEmpty with
+    | true => simp only [if_true]; (refine ⟨h, ?_, ?_⟩ <;> first | rfl | trivial | exact Or.inr rfl)
+    | false =>
+      simp only [Bool.false_eq_true, if_false]
+      have := growTo_spec s h (maxIdx is)
+      exact ⟨this.1, this.2.1, Or.inr rfl⟩
+  | growSet i v =>
+    simp only [Paged.step, Slice.step, Paged.growSet]
+    have hg := growTo_spec s h i
+    by_cases hneg : i < 0
+    · have h1 : (s.growTo i).write i v = none := write_neg _ i v hneg
+      have h2 : Slice.write (Slice.growTo s.abs i) i v = none := by unfold Slice.write; simp [hneg]
+      rw [h1, h2]
+      exact ⟨hg.1, hg.2.1, Or.inr rfl⟩
+    · obtain ⟨n, rfl⟩ : ∃ n : Nat, i = (n : Int) := ⟨i.toNat, by omega⟩
+      have hn : n < (s.growTo (n : Int)).len := by have := hg.2.2.2 (by omega); simpa using this
+      have h1 := write_eq (s.growTo (n : Int)) hg.1.ps1 n (by have := hg.1.fits; omega) v
+      have h2 : Slice.write (Slice.growTo s.abs (n : Int)) (n : Int) v = some ((Slice.growTo s.abs (n : Int)).set n v) := by
+        unfold Slice.write
+        rw [← hg.2.1, length_abs]
+        simp [hn]
+      rw [h1, h2]
+      refine ⟨wf_upd _ hg.1 n hn v, ?_, Or.inr rfl⟩
+      rw [abs_upd _ n hn v, hg.2.1]
+  | batchGrowSet is vs =>
+    simp only [Paged.step, Slice.step, Paged.batchGrowSet]
+    by_cases hl : is.length ≠ vs.length
+    · rw [if_pos hl, if_pos hl]; (refine ⟨h, ?_, ?_⟩ <;> first | rfl | trivial | exact Or.inr rfl)
+    · rw [if_neg hl, if_neg hl]
+      cases hE : is.isEmpty with
+      | true => simp only [if_true]; (refine ⟨h, ?_, ?_⟩ <;> first | rfl | trivial | exact Or.inr rfl)
+      | false =>
+        simp only [Bool.false_eq_true, if_false]
+        have hg := growTo_spec s h (maxIdx is)
+        have hb : ∀ i ∈ is, i < ((s.growTo (maxIdx is)).len : Int) := by
+          intro i hi
+          have hle := le_maxIdx is i hi
+          by_cases hm : maxIdx is ≥ (s.len : Int)
+          · have := hg.2.2.2 (by omega); omega
+          · rw [growTo_small s _ hm]; omega
+        have hw := writeAll_spec _ hg.1 is vs hb
+        rw [hg.2.1] at hw
+        cases hp : (s.growTo (maxIdx is)).writeAll is vs with
+        | mk s' ok =>
+          rw [hp] at hw
+          cases hq : Slice.writeAll (Slice.growTo s.abs (maxIdx is)) is vs with
+          | mk l' ok' =>
+            rw [hq] at hw
+            obtain ⟨w1, w2, w3⟩ := hw
+            simp only at w1 w2 w3
+            subst w3
+            cases ok <;> exact ⟨w1, w2, Or.inr rfl⟩
+  | batchSet is vs =>
+    simp only [Paged.step, Slice.step, Paged.batchSet]
+    by_cases hl : is.length ≠ vs.length
+    · rw [if_pos hl, if_pos hl]; (refine ⟨h, ?_, ?_⟩ <;> first | rfl | trivial | exact Or.inr rfl)
+    · rw [if_neg hl, if_neg hl]
+      cases hE : is.isEmpty with
+      | true => simp only [if_true]; (refine ⟨h, ?_, ?_⟩ <;> first | rfl | trivial | exact Or.inr rfl)
+      | false =>
+        simp only [Bool.false_eq_true, if_false]
+        obtain ⟨s', h1, h2, h3⟩ := setAll_spec s h is vs
+        rw [h1]
+        exact ⟨h2, h3, Or.inr rfl⟩
+  | dump =>
+    refine ⟨h, rfl, Or.inr ?_⟩
+    simp only [Paged.step, Slice.step]
+    congr 1
+    apply List.ext_getElem
+    · simp [abs]
+    · intro j h1 h2
+      simp only [List.length_map, List.length_range] at h1
+      have hj : j < s.abs.length := by rw [length_abs]; exact h1
+      simp only [List.getElem_map, List.getElem_range]
+      have := get_in s h j h1
+      simp only [Int.ofNat_eq_natCast] at this ⊢
+      rw [this]
+      simp [List.getD_eq_getElem?_getD, List.getElem?_eq_getElem hj]
+
+/-- **`C16_paged_refines`** — for every page size ≥ 1 and every operation sequence: the paged slice stays
+well-formed and its logical contents are those of the plain slice … -/
+theorem C16_paged_refines (ps : Nat) (hps : 1 ≤ ps) (ops : List Paged.Op) :
+    let s := ops.foldl (fun s op => (Paged.step s op).1) (Paged.new ps)
+    WF s ∧ s.abs = ops.foldl (fun l op => (Slice.step l op).1) [] := by
+  intro s
+  suffices ∀ (s0 : Paged) (l0 : List Int), WF s0 → s0.abs = l0 →
+      WF (ops.foldl (fun s op => (Paged.step s op).1) s0) ∧
+        (ops.foldl (fun s op => (Paged.step s op).1) s0).abs = ops.foldl (fun l op => (Slice.step l op).1) l0 from
+    this _ _ (wf_new ps hps) (abs_new ps)
+  induction ops with
+  | nil => intro s0 l0 h1 h2; exact ⟨h1, h2⟩
+  | cons op ops ih =>
+    intro s0 l0 h1 h2
+    subst h2
+    obtain ⟨a, b, _⟩ := C16_paged_step s0 h1 op
+    exact ih _ _ a b
+
+/-- … and every answer is the plain slice's (where the plain slice determines one) -/
+def PagedAgree : Paged → List Int → List Paged.Op → Prop
+  | _, _, [] => True
+  | s, l, op :: ops => pagedAgree (Paged.step s op).2 (Slice.step l op).2 ∧
+      PagedAgree (Paged.step s op).1 (Slice.step l op).1 ops
+
+theorem C16_paged_answers (ps : Nat) (hps : 1 ≤ ps) (ops : List Paged.Op) : PagedAgree (Paged.new ps) [] ops := by
+  suffices ∀ (s0 : Paged), WF s0 → PagedAgree s0 s0.abs ops from this _ (wf_new ps hps)
+  induction ops with
+  | nil => intro _ _; trivial
+  | cons op ops ih =>
+    intro s0 h1
+    obtain ⟨a, b, c⟩ := C16_paged_step s0 h1 op
+    refine ⟨c, ?_⟩
+    rw [← b]
+    exact ih _ a
+
+/-- **`C16_absent_total` (paged slice)** — `Del`, `Set` and `BatchSet` with an index outside `0..Len()-1`
+(negative included) are total no-ops. -/
+theorem C16_absent_total_paged (s : Paged) (i v : Int) (h : i < 0 ∨ i ≥ (s.len : Int)) :
+    Paged.step s (.del i) = (s, .unit) ∧ Paged.step s (.set i v) = (s, .unit) ∧
+      Paged.step s (.batchSet [i] [v]) = (s, .unit) := by
+  refine ⟨?_, ?_, ?_⟩
+  · simp [Paged.step, del_out s i h]
+  · simp [Paged.step, Paged.set, h]
+  · simp [Paged.step, Paged.batchSet, Paged.setAll, h]
+
+/-- non-vacuity: deletes across a page boundary, re-growth (zero values, not the deleted element) -/
+example : Paged.run (Paged.new 2) [.add 1, .add 2, .add 3, .del 0, .dump, .del 1, .grow [2], .dump, .growSet 4 9, .dump, .len] =
+    [.unit, .unit, .unit, .unit, .ints [3, 2], .unit, .unit, .ints [3, 0, 0], .unit, .ints [3, 0, 0, 0, 9], .int 5] := by
+  decide
+
+end paged
 
 end MV.Props.C16
